@@ -39,6 +39,15 @@ func cmdStandin(args []string) int {
 		filepath.Join(pkgDir, "zz_govc_standin_test.go"):          src,
 		filepath.Join(repoDir, "client/docs/statik/statik.go"): statik,
 	}
+	if ovEnv := os.Getenv("GOVC_OVERLAY"); ovEnv != "" {
+		// selftest: the mutated sources must be what the stand-in runs
+		var m map[string]string
+		if err := readJSON(ovEnv, &m); err == nil {
+			for k, v := range m {
+				repl[k] = v
+			}
+		}
+	}
 	ov, _ := json.Marshal(map[string]any{"Replace": repl})
 	ovFile := filepath.Join(scratch, "overlay.json")
 	os.WriteFile(ovFile, ov, 0o644)
